@@ -16,7 +16,7 @@ from .. import core, space
 
 ID = "C08"
 LEVEL = "model_checking"
-RULE = ("histories = (prefix of <=2 disturbing solve/restart operations drawn from a 10-letter alphabet: other field, other save list, other stop, other CFL, "
+RULE = ("histories = (prefix of <=2 disturbing solve/restart operations drawn from an 11-letter alphabet: other field, other save list, other stop, other CFL, dtlocal directive, "
         "monitors, first-step snapshot) x (probe operation: solve(f1) x 5 save lists x 3 monitor settings; restart pairs N+M for N in 1..3, M in 1..2) "
         "x every integrator class x 3 systems x {monitors given to solve, monitors given to the constructor}; "
         "non-trivial = history with a non-empty prefix or a probe with snapshots/monitors")
@@ -131,10 +131,18 @@ class Runner:
             call = self.solver.restart
         # an explicit far stop time overrides the default "stop at the last save time", so that sibling probes run the same N iterations
         stop = {"maxit": o["maxit"], "tottime": 1e30}
+        direc = {"dtlocal": True} if o.get("dtlocal") else {}
+        ts_given = list(ts)
+        args_before = (dict(stop), list(ts_given), dict(direc), {k: {a: b for a, b in v.items() if a != "output"} for k, v in mons.items()})
         with np.errstate(all="ignore"), core.time_limit(HORIZON):
-            out = call(f, o.get("cfl", CFL), list(ts), stop=stop, monitors=mons)
+            out = call(f, o.get("cfl", CFL), ts_given, stop=stop, monitors=mons, directives=direc)
+        args_after = (dict(stop), list(ts_given), dict(direc), {k: {a: b for a, b in v.items() if a != "output"} for k, v in mons.items()})
+        self.args_changed = getattr(self, "args_changed", None) or (None if args_after == args_before else
+                                                                    "stop/save-times/directives/monitor arguments changed from %r to %r" % (args_before, args_after))
         sols = list(out.solutions)
         self.last = sols[-1]
+        self.kept = getattr(self, "kept", [])
+        self.kept.append((sols, tuple(fbytes(g) for g in sols), f, fbytes(f)))
         obs = {"fields": tuple(fbytes(g) for g in sols), "nit": self.solver.nit(), "totnit": self.solver.totnit()}
         qn = getattr(self.solver, "Qn", None)
         obs["Qn"] = fbytes(qn)[::2] if qn is not None else None
@@ -177,6 +185,7 @@ DISTURB = [
     {"op": "restart", "maxit": 2, "rsave": [1e-3], "mon": "f1"},
     {"op": "solve", "f": "b", "save": "none", "maxit": 2, "cfl": 0.8},       # another CFL number on the same objects
     {"op": "restart", "maxit": 1, "cfl": 0.15},
+    {"op": "solve", "f": "a", "save": "early", "maxit": 2, "dtlocal": True},   # a directive given to one call only
 ]
 PROBE_SAVES = ["none", "early", "early2", "late", "early+late", "all", "start+late"]
 PROBE_MONS = ["none", "f1", "mix"]
@@ -227,6 +236,18 @@ def explore(iname, sysname, ctor_mon, depth, res=None):
             obs.append(R.op(o))
             if res is not None:
                 res.transitions += 1
+        if getattr(R, "args_changed", None):
+            add("call-modifies-its-arguments", R.args_changed, hist)
+        # what earlier calls returned (and were given) belongs to the caller: later calls on the same solver must not change it
+        for k, (sols, seen, fin, fin_seen) in enumerate(getattr(R, "kept", [])):
+            now = tuple(fbytes(g) for g in sols)
+            if now != seen:
+                add("later-call-modifies-earlier-results", "fields returned by call %d of the history were changed by a later call (%s)" % (
+                    k + 1, first_diff({"fields": now, "nit": 0, "totnit": 0, "Qn": None, "mon": {}}, {"fields": seen, "nit": 0, "totnit": 0, "Qn": None, "mon": {}})), hist)
+                break
+            if fbytes(fin) != fin_seen and hist[k]["op"] == "solve":
+                add("call-modifies-its-input-field", "the field handed to call %d of the history was changed" % (k + 1), hist)
+                break
         return R, obs
 
     # fresh observations of every probe (the reference side of the differential oracle)
